@@ -260,3 +260,90 @@ M("semi-prototypes-requeued-cost", ["C15", "C02"], SEMI,
   "                h.cost[i] = 0\n                h.insert(i)", "                h.cost[i] = c.EPSILON\n                h.insert(i)")
 M("semi-label-store-order", ["~C15"], SEMI,
   "                        current_cost = np.maximum(h.cost[p], weight)", "                        current_cost = np.maximum(weight, h.cost[p])")
+
+# ---------------------------------------------------------------------------
+# k-NN prediction (C14, C09)
+# ---------------------------------------------------------------------------
+_KNN_SCAN_HEAD = "            for j in range(self.subgraph.n_nodes):\n                if self.pre_computed_distance:\n                    distances[best_k] = self.pre_distances[\n                        pred_subgraph.nodes[i].idx\n                    ][self.subgraph.nodes[j].idx]"
+M("knnpred-revert-f3", ["C14", "C09"], KNN,
+  "            for j in range(self.subgraph.n_nodes):\n                if self.pre_computed_distance:\n                    distances[best_k] = self.pre_distances[\n                        pred_subgraph.nodes[i].idx\n                    ][self.subgraph.nodes[j].idx]\n                else:\n                    distances[best_k] = self.distance_fn(\n                        pred_subgraph.nodes[i].features,\n                        self.subgraph.nodes[j].features,\n                    )\n\n                neighbours_idx[best_k] = j\n                cur_k = best_k\n",
+  "            for j in range(self.subgraph.n_nodes):\n                if j == i:\n                    continue\n                if self.pre_computed_distance:\n                    distances[best_k] = self.pre_distances[\n                        pred_subgraph.nodes[i].idx\n                    ][self.subgraph.nodes[j].idx]\n                else:\n                    distances[best_k] = self.distance_fn(\n                        pred_subgraph.nodes[i].features,\n                        self.subgraph.nodes[j].features,\n                    )\n\n                neighbours_idx[best_k] = j\n                cur_k = best_k\n")
+M("knnpred-skip-last-train", ["C14"], KNN,
+  "            for j in range(self.subgraph.n_nodes):\n                if self.pre_computed_distance:\n                    distances[best_k] = self.pre_distances[\n                        pred_subgraph",
+  "            for j in range(self.subgraph.n_nodes - 1):\n                if self.pre_computed_distance:\n                    distances[best_k] = self.pre_distances[\n                        pred_subgraph")
+M("knnpred-no-reset", ["C14", "C09"], KNN,
+  "            cost = c.FLOAT_MAX * -1\n\n            distances.fill(c.FLOAT_MAX)\n", "            cost = c.FLOAT_MAX * -1\n\n")
+M("knnpred-reset-once", ["C14", "C09"], KNN,
+  "        for i in range(pred_subgraph.n_nodes):\n            cost = c.FLOAT_MAX * -1\n\n            distances.fill(c.FLOAT_MAX)\n",
+  "        distances.fill(c.FLOAT_MAX)\n        for i in range(pred_subgraph.n_nodes):\n            cost = c.FLOAT_MAX * -1\n\n")
+M("knnpred-cost-not-reset", ["C14", "C09"], KNN,
+  "        for i in range(pred_subgraph.n_nodes):\n            cost = c.FLOAT_MAX * -1\n\n            distances.fill(c.FLOAT_MAX)\n",
+  "        cost = c.FLOAT_MAX * -1\n        for i in range(pred_subgraph.n_nodes):\n            distances.fill(c.FLOAT_MAX)\n")
+M("knnpred-index-swap-dropped", ["C14"], KNN,
+  "                    neighbours_idx[cur_k], neighbours_idx[cur_k - 1] = (\n                        neighbours_idx[cur_k - 1],\n                        neighbours_idx[cur_k],\n                    )\n\n                    cur_k -= 1\n\n            density = 0.0",
+  "                    cur_k -= 1\n\n            density = 0.0")
+M("knnpred-density-recomputed-constant", ["C14"], KNN,
+  "                density += np.exp(-distances[k] / self.subgraph.constant)",
+  "                density += np.exp(-distances[k] / (2 * self.subgraph.density / 9 + 1))")
+M("knnpred-density-k-plus-1", ["C14"], KNN, "            density /= best_k\n", "            density /= best_k + 1\n")
+M("knnpred-no-epsilon-is-different-formula", ["C14"], KNN,
+  "                / (self.subgraph.max_density - self.subgraph.min_density + c.EPSILON)\n            ) + 1\n\n            for k in range(best_k):\n                if distances[k] != c.FLOAT_MAX:\n                    neighbour = int(neighbours_idx[k])\n\n                    temp_cost = np.minimum(self.subgraph.nodes[neighbour].cost, density)\n                    if temp_cost > cost:\n                        cost = temp_cost\n\n                        pred_subgraph.nodes[i].predicted_label = self.subgraph.nodes[\n                            neighbour\n                        ].predicted_label\n\n        preds",
+  "                / (self.subgraph.max_density + self.subgraph.min_density + c.EPSILON)\n            ) + 1\n\n            for k in range(best_k):\n                if distances[k] != c.FLOAT_MAX:\n                    neighbour = int(neighbours_idx[k])\n\n                    temp_cost = np.minimum(self.subgraph.nodes[neighbour].cost, density)\n                    if temp_cost > cost:\n                        cost = temp_cost\n\n                        pred_subgraph.nodes[i].predicted_label = self.subgraph.nodes[\n                            neighbour\n                        ].predicted_label\n\n        preds")
+M("knnpred-argmax-max", ["C14"], KNN,
+  "                    temp_cost = np.minimum(self.subgraph.nodes[neighbour].cost, density)\n                    if temp_cost > cost:\n                        cost = temp_cost\n\n                        pred_subgraph.nodes[i].predicted_label = self.subgraph.nodes[\n                            neighbour\n                        ].predicted_label\n\n        preds",
+  "                    temp_cost = np.maximum(self.subgraph.nodes[neighbour].cost, density)\n                    if temp_cost > cost:\n                        cost = temp_cost\n\n                        pred_subgraph.nodes[i].predicted_label = self.subgraph.nodes[\n                            neighbour\n                        ].predicted_label\n\n        preds")
+M("knnpred-label-outside-accept", ["C14"], KNN,
+  "                    if temp_cost > cost:\n                        cost = temp_cost\n\n                        pred_subgraph.nodes[i].predicted_label = self.subgraph.nodes[\n                            neighbour\n                        ].predicted_label\n\n        preds",
+  "                    if temp_cost > cost:\n                        cost = temp_cost\n\n                    pred_subgraph.nodes[i].predicted_label = self.subgraph.nodes[\n                        neighbour\n                    ].predicted_label\n\n        preds")
+M("knnpred-ranks-skip-first", ["C14"], KNN,
+  "            for k in range(best_k):\n                if distances[k] != c.FLOAT_MAX:\n                    neighbour = int(neighbours_idx[k])\n\n                    temp_cost = np.minimum(self.subgraph.nodes[neighbour].cost, density)\n                    if temp_cost > cost:\n                        cost = temp_cost\n\n                        pred_subgraph.nodes[i].predicted_label = self.subgraph.nodes[\n                            neighbour\n                        ].predicted_label\n\n        preds",
+  "            for k in range(1, best_k):\n                if distances[k] != c.FLOAT_MAX:\n                    neighbour = int(neighbours_idx[k])\n\n                    temp_cost = np.minimum(self.subgraph.nodes[neighbour].cost, density)\n                    if temp_cost > cost:\n                        cost = temp_cost\n\n                        pred_subgraph.nodes[i].predicted_label = self.subgraph.nodes[\n                            neighbour\n                        ].predicted_label\n\n        preds")
+M("unspred-cluster-from-other", ["C14"], UNS,
+  "                        pred_subgraph.nodes[i].cluster_label = self.subgraph.nodes[\n                            neighbour\n                        ].cluster_label",
+  "                        pred_subgraph.nodes[i].cluster_label = self.subgraph.nodes[\n                            int(neighbours_idx[0])\n                        ].cluster_label")
+M("unspred-buffer-short", ["C14"], UNS,
+  "        distances = np.zeros(best_k + 1)\n        neighbours_idx = np.zeros(best_k + 1)\n\n        for i in range(pred_subgraph.n_nodes):\n            cost = -c.FLOAT_MAX",
+  "        distances = np.zeros(best_k + 1)\n        neighbours_idx = np.zeros(best_k)\n\n        for i in range(pred_subgraph.n_nodes):\n            cost = -c.FLOAT_MAX")
+M("unspred-bubble-direction", ["C14"], UNS,
+  "                while cur_k > 0 and distances[cur_k] < distances[cur_k - 1]:\n                    distances[cur_k], distances[cur_k - 1] = (\n                        distances[cur_k - 1],\n                        distances[cur_k],\n                    )\n\n                    neighbours_idx[cur_k], neighbours_idx[cur_k - 1] = (\n                        neighbours_idx[cur_k - 1],\n                        neighbours_idx[cur_k],\n                    )\n\n                    cur_k -= 1\n\n            density = 0.0",
+  "                while cur_k > 0 and distances[cur_k] > distances[cur_k - 1]:\n                    distances[cur_k], distances[cur_k - 1] = (\n                        distances[cur_k - 1],\n                        distances[cur_k],\n                    )\n\n                    neighbours_idx[cur_k], neighbours_idx[cur_k - 1] = (\n                        neighbours_idx[cur_k - 1],\n                        neighbours_idx[cur_k],\n                    )\n\n                    cur_k -= 1\n\n            density = 0.0")
+M("knnpred-accept-nonstrict", ["~C14", "~C09"], KNN,
+  "                    if temp_cost > cost:\n                        cost = temp_cost\n\n                        pred_subgraph.nodes[i].predicted_label",
+  "                    if temp_cost >= cost:\n                        cost = temp_cost\n\n                        pred_subgraph.nodes[i].predicted_label")
+M("knnpred-neg-floatmax-spelling", ["~C14", "~C09"], KNN,
+  "            cost = c.FLOAT_MAX * -1\n\n            distances.fill", "            cost = -c.FLOAT_MAX\n\n            distances.fill")
+
+# ---------------------------------------------------------------------------
+# ownership / determinism (C07)
+# ---------------------------------------------------------------------------
+M("dec-revert-f1", ["C07", "C09"], DEC,
+  "        x = x + c.EPSILON\n        y = y + c.EPSILON\n", "        x += c.EPSILON\n        y += c.EPSILON\n")
+M("dec-inplace-add-out", ["C07"], DEC,
+  "        x = x + c.EPSILON\n", "        x = np.add(x, c.EPSILON, out=x)\n")
+M("metric-inplace-sub", ["C07"], DIST,
+  "    dist = np.fabs(x - y)\n\n    return np.amax(dist)", "    x -= y\n    dist = np.fabs(x)\n\n    return np.amax(dist)")
+M("metric-elem-store", ["C07"], DIST,
+  "    dist = np.zeros(x.shape[0])\n\n    # Creates a binary mask", "    dist = np.zeros(x.shape[0])\n    x[0] = x[0] + 0.0\n\n    # Creates a binary mask")
+M("node-normalises-features-inplace", ["C07"], NODE,
+  "        self.features = np.asarray(features)\n", "        self.features = np.asarray(features)\n        self.features -= 0.0\n")
+M("build-sorts-rows", ["C07"], SUBG,
+  "        for i, (feature, label) in enumerate(zip(X, Y)):\n", "        for i, (feature, label) in enumerate(zip(X, Y)):\n            feature.sort()\n")
+M("fit-shuffles-input", ["C07"], SUP,
+  "        self.subgraph = Subgraph(X_train, Y_train, I=I_train)\n", "        np.random.shuffle(X_train)\n        self.subgraph = Subgraph(X_train, Y_train, I=I_train)\n")
+M("predict-centers-queries", ["C07"], KNN,
+  "        pred_subgraph = KNNSubgraph(X_test, I=I_test)\n", "        X_test -= X_test.mean(axis=0)\n        pred_subgraph = KNNSubgraph(X_test, I=I_test)\n")
+M("metric-call-counter", ["C07"], DIST,
+  "    dist = (x - y) ** 2\n\n    return np.sum(dist) ** 0.5\n\n\n@njit(cache=True)\ndef gaussian",
+  "    global _CALLS\n    _CALLS = 1\n    dist = (x - y) ** 2\n\n    return np.sum(dist) ** 0.5\n\n\n@njit(cache=True)\ndef gaussian")
+M("registry-mutated", ["C07"], OPFC,
+  "        self.distance_fn = d.DISTANCES[distance]\n", "        d.DISTANCES[distance] = d.DISTANCES[distance]\n        self.distance_fn = d.DISTANCES[distance]\n")
+M("fit-random-tiebreak", ["C07"], SUP,
+  "        h = Heap(self.subgraph.n_nodes)\n\n        self.subgraph.nodes[0].pred = c.NIL\n\n        h.insert(0)",
+  "        h = Heap(self.subgraph.n_nodes)\n        start = int(np.random.randint(0, 1))\n\n        self.subgraph.nodes[start].pred = c.NIL\n\n        h.insert(start)")
+M("fit-time-in-state", ["C07"], SUP,
+  "        train_time = end - start\n\n        logger.info(\"Classifier has been fitted.\")",
+  "        train_time = end - start\n        self.subgraph.nodes[0].radius = train_time\n\n        logger.info(\"Classifier has been fitted.\")")
+M("dec-copy-then-inplace", ["~C07", "~C09"], DEC,
+  "        x = x + c.EPSILON\n        y = y + c.EPSILON\n", "        x = x.copy()\n        x += c.EPSILON\n        y = y + c.EPSILON\n")
+M("metric-local-inplace", ["~C07", "~C06", "~C08"], DIST,
+  "    dist = np.fabs(x - y)\n\n    return np.amax(dist)", "    dist = x - y\n    dist = np.fabs(dist)\n\n    return np.amax(dist)")
